@@ -164,6 +164,8 @@ pub struct Child {
     pub is_unit: bool,
     /// the future type has no destructor: its drop cannot be observed
     pub no_drop_glue: bool,
+    /// index in World::live_ids while the child is held (accepted, not completed, not dropped)
+    pub live_pos: u32,
 }
 
 pub struct TokRec {
@@ -243,6 +245,8 @@ pub struct Block {
 pub struct World {
     pub now: u64,
     pub children: Vec<Child>,
+    /// ids of the children currently held by the subject (accepted, not completed, not dropped)
+    pub live_ids: Vec<u32>,
     pub toks: Vec<TokRec>,
     pub violations: Vec<Violation>,
     // chooser
@@ -303,6 +307,7 @@ impl World {
         World {
             now: 0,
             children: Vec::new(),
+            live_ids: Vec::new(),
             toks: Vec::new(),
             violations: Vec::new(),
             prefix: Vec::new(),
@@ -443,6 +448,7 @@ impl World {
             victim_wake_cpoll: None,
             is_unit: false,
             no_drop_glue: false,
+            live_pos: u32::MAX,
         });
         id
     }
@@ -455,11 +461,27 @@ impl World {
         c.accept_time = now;
         c.owed = true;
         c.credit = 1;
+        c.live_pos = self.live_ids.len() as u32;
+        self.live_ids.push(id);
         self.accepted_total += 1;
     }
 
+    /// the child stops being held (completed or dropped)
+    pub fn unlive(&mut self, id: u32) {
+        let pos = self.children[id as usize].live_pos;
+        if pos == u32::MAX {
+            return;
+        }
+        self.children[id as usize].live_pos = u32::MAX;
+        let last = self.live_ids.pop().unwrap();
+        if last != id {
+            self.live_ids[pos as usize] = last;
+            self.children[last as usize].live_pos = pos;
+        }
+    }
+
     pub fn held(&self) -> usize {
-        self.children.iter().filter(|c| c.accepted && c.drops == 0 && !c.completed).count()
+        self.live_ids.len()
     }
 
     fn occupant_of(&self, data: usize) -> Option<u32> {
@@ -820,6 +842,7 @@ fn complete_child(w: &mut World, id: u32) {
     c.owed = false;
     w.completed_in_call.push(id);
     w.clear_occupant(id);
+    w.unlive(id);
 }
 
 impl<O: Out> Future for ScriptFut<O> {
@@ -972,6 +995,7 @@ fn child_dropped(w: &mut World, id: u32, addr: usize) {
         );
     }
     w.clear_occupant(id);
+    w.unlive(id);
     w.logf(|| format!("    child {} dropped", id));
 }
 
